@@ -74,7 +74,8 @@ AddField ==
 
 AddParam ==
     /\ Room
-    /\ \E s \in Scopes({"struct"}), n \in FN : Add(Def("param", n, s))
+    /\ \E s \in Scopes({"struct"}), n \in FN :
+          Add([Def("param", n, s) EXCEPT !.refs = <<Ref("type", "type", <<"UInt">>)>>])   \* `n: UInt:8`
 
 AddVal ==
     /\ Room
